@@ -27,6 +27,7 @@ class State:
         self.dist = {}
         self.findings = []      # (key, what, case)  direct-predicate failures on the implementation
         self.corr_broken = []   # (what, cases)
+        self.aliasing_notes = set()
         self.fams = []          # (name, coq type, ok function, [coq item], [source case], preamble)
         self.rules = []
 
@@ -258,6 +259,8 @@ def run_types_engine(ctx, st):
                 st.fail("C19:header-writer-error", "writeBlockHeader returned an error", {"header": json_header(rec), "err": o["err"]})
             if f is None:
                 base_obs[("H", bi)] = (rec, o)
+                if o.get("full_again") != o["full"]:
+                    st.fail("C19:header-mutated-by-writer", "the header is different after the digest writers / hash functions ran", json_header(rec))
                 if hashlib.sha256(hb(o["full"])).hexdigest() != o["calc"]:
                     st.fail("C19:blockhash-not-sha256-of-writer", "calculateBlockHash is not sha256 of writeBlockHeader output", json_header(rec))
             else:
@@ -279,6 +282,8 @@ def run_types_engine(ctx, st):
                 hhash_items.append("(%s, %s)" % (coq_header(rec), cb(hb(o["calc"]))))
                 hhash_src.append({"header": json_header(rec), "obs": o})
         elif kind == "T":
+            if o.get("hash_again") != o["hash"]:
+                st.fail("C19:tx-mutated-by-hash", "CalculateTxHash changes the transaction it hashes", json_tx(rec))
             if f is None:
                 base_obs[("T", bi)] = (rec, o)
             else:
@@ -471,6 +476,13 @@ def receipts_family(ctx, st):
             ritems.append("(%s, (%s, %s, %s, %s), (%s, %s))" % (coq_receipt(rec), opt_coq_bytes(o.get("s1")), opt_coq_bytes(o.get("s2")),
                                                                opt_coq_bytes(o.get("m1")), opt_coq_bytes(o.get("m2")), dec("d1"), dec("d2")))
             rsrc.append({"receipt": c["r"], "obs": {k: (v if not isinstance(v, str) or len(v) < 200 else v[:200] + "...") for k, v in o.items()}})
+            if "input_after" in o and receipt_from_json(o["input_after"]) != rec:
+                st.fail("C19:receipt-mutated-by-codec", "a receipt is different after its encoders / decoders ran (caller-owned data written to)",
+                        {"receipt": c["r"], "after": o["input_after"]})
+            for key in ("d1", "d2"):
+                if o.get(key + "_aliases_input"):
+                    st.aliasing_notes.add("unmarshalStoreBinary%s retains sub-slices of the caller's buffer (decoded receipt changes when the "
+                                          "buffer is overwritten afterwards)" % ("V2" if key == "d2" else ""))
             wf = is_wf_receipt(rec)
             st.nontrivial.add(("R", kind, rec["status"], len(rec["events"]), bool(rec["bloom"]), rec["feedeleg"], wf, b))
             if wf:
@@ -803,6 +815,9 @@ def chainid_family(ctx, st):
         if "dec_panic" in o:
             st.fail("C19:chainid-read-panic", "ChainID.Read panicked", {"raw": r.hex(), "obs": o})
     for (r, v), o in zip(mcs, obs[len(cids) + len(raws):]):
+        if o.get("raw_after") != r.hex():
+            st.fail("C19:makechainid-writes-to-argument", "MakeChainId wrote into the caller's chain id slice",
+                    {"cid": r.hex(), "v": v, "cid_after": o.get("raw_after"), "returned": o.get("make")})
         dv = "None" if o["decode_ver"] == -1 and len(r) < 4 else "(Some %d)" % (o["decode_ver"] % 2 ** 32)
         mk = "None" if "make" not in o else "(Some %s)" % cb(hb(o["make"]))
         mitems.append("(%s, %d, %s, %s)" % (cb(r), v % 2 ** 32, dv, mk))
@@ -987,7 +1002,64 @@ def genesis_store_family(ctx, st):
                     "real ChainDB.addGenesisBlock into a badger DB, database closed and re-opened, GetGenesisInfo compared with get_genesis/add_genesis")
 
 
-EXTRA_FAMILIES = [corpus_family, receipts_family, merkle_family, hardfork_family, txsign_family, chainid_family, txroot_family, genesis_family, genesis_store_family]
+# ------------------------------------------------------------------ fork boundary: preparing a child must not touch the sealed parent
+def forkboundary_family(ctx, st):
+    """A sealed parent block (identifier cached, digest inputs, protobuf bytes snapshotted), then
+    NewBlockHeaderInfoFromPrevBlock / MakeChainId / NewBlock for child blocks of the same and of every other hardfork
+    version; the parent is snapshotted again after each child (hold-and-compare).  The model has chain ids as values
+    (make_chain_id is a function of (cid, v)); that the Go slices behave like values is what this family checks."""
+    rng = ctx.rng
+    quick = ctx.tier == "quick"
+    cases, parents = [], []
+    for pv in range(0, 6):
+        for _ in range(1 if quick else 8):
+            h = rand_header(rng)
+            magic = bytes(rng.choice(b"abcdefgh.") for _ in range(rng.randrange(1, 9)))
+            h["ChainID"] = (pv).to_bytes(4, "little") + bytes([rng.randrange(2), rng.randrange(2)]) + magic + b"/dpos"
+            vers = [pv, pv + 1, 5, 0, pv] if quick else [pv] + list(range(0, 7)) + [pv, 2 ** 31 - 1, -1]
+            cases.append({"kind": "FB", "h": json_header(h), "vers": vers})
+            parents.append(h)
+    # short / empty chain ids (MakeChainId slices cid[:4])
+    for cid in (b"", b"\x01\x00", b"\x02\x00\x00\x00"):
+        h = rand_header(rng)
+        h["ChainID"] = cid
+        cases.append({"kind": "FB", "h": json_header(h), "vers": [2, 3]})
+        parents.append(h)
+    obs = run_engine(ctx, st.types_bin, "TestVerifCodecEngine", cases, "forkboundary")
+    pitems, psrc, kitems, ksrc = [], [], [], []
+    for h, c, o in zip(parents, cases, obs):
+        s0 = o["snaps"][0]
+        pv = int.from_bytes(h["ChainID"][:4], "little") if len(h["ChainID"]) >= 4 else None
+        for i, (v, kid) in enumerate(zip(c["vers"], o["kids"])):
+            s1 = o["snaps"][i + 1]
+            boundary = pv is not None and (v % 2 ** 32) != pv
+            st.nontrivial.add(("FB", pv, "boundary" if boundary else "same", "panic" in kid))
+            rep = {"parent_header": c["h"], "parent_version": pv, "child_version": v, "fork_boundary": boundary,
+                   "parent_before": s0, "parent_after": s1, "child": kid}
+            if s1 != s0:
+                changed = [k for k in s0 if s0[k] != s1[k]]
+                st.fail("C19:parent-block-altered-by-child-preparation",
+                        "preparing a child block of fork version %d on a sealed parent of version %s changed the parent's %s "
+                        "(its identifier is no longer the hash of its header)" % (v, pv, ", ".join(changed)), rep)
+            if "panic" not in kid:
+                if kid["prev"] != s0["HashField"]:
+                    st.fail("C19:child-prev-hash", "child header does not reference the parent's identifier", rep)
+                if kid["info_of_parent_cid"] != s0["Cid"]:
+                    st.fail("C19:parent-block-altered-by-child-preparation", "NewBlockHeaderInfo(parent) no longer reports the parent's chain id", rep)
+            mk = "None" if "panic" in kid else "(Some %s)" % cb(hb(kid["cid"]))
+            kitems.append("(%s, %d, %s)" % (cb(h["ChainID"]), v % 2 ** 32, mk))
+            ksrc.append(rep)
+            # the parent after this child, against the model of the parent as a value
+            pitems.append("(%s, %s, %s)" % (coq_header(h), cb(hb(s1["Full"])), cb(hb(s1["NoSign"]))))
+            psrc.append(rep)
+    st.add_family("forkboundary_parent", "header * bytes * bytes", "header_case_ok", pitems, psrc)
+    st.add_family("forkboundary_child_cid", "bytes * N * option bytes",
+                  "(fun c : bytes * N * option bytes => let '(cid, v, mk) := c in opt_bytes_eqb (make_chain_id cid v) mk)", kitems, ksrc)
+    st.rules.append("fork boundary: sealed parents of every fork version 0..5, children prepared for the same and for other versions "
+                    "(NewBlockHeaderInfoFromPrevBlock, MakeChainId, NewBlock), parent snapshotted before and after each child; short chain ids")
+
+
+EXTRA_FAMILIES = [corpus_family, receipts_family, merkle_family, hardfork_family, txsign_family, chainid_family, txroot_family, genesis_family, genesis_store_family, forkboundary_family]
 EXTRA_TARGETS = ["Common/Sha256.vo", "Common/Lit.vo", "Codec/Receipt.vo", "Codec/Merkle.vo", "Codec/Hardfork.vo", "Codec/TxRoot.vo", "Codec/GenesisStore.vo"]  # evaluated models that no theorem depends on
 
 IMPORTS = """From Coq Require Import NArith ZArith List Bool String Uint63.
